@@ -88,8 +88,8 @@ Definition find_start (f : list Z) : found := if is_marker f 0 then FStart else 
 (* __find_metadata *)
 Definition find_metadata (real : bool) (f : list Z) : found :=
   let n := zlen f in
-  match rseek real n (-32) with
-  | None => FNone                                     (* except IOError: seek(0, 2); return *)
+  match (if n <? 32 then None else Some (n - 32)) with
+  | None => FNone                                     (* get_size(fileobj) < 32: seek(0, 2); return *)
   | Some p0 =>
     if is_marker f p0 then FFooter p0 else
     if n <? 128 then find_start f else
